@@ -715,3 +715,79 @@ Theorem C04_open_flush_total :
   exists st', flush_memdb rp kp mp tp tcrc compress snappy fgen blockSize ri c st = OOk st'.
 Proof. exact flush_memdb_total. Qed.
 Print Assumptions C04_open_flush_total.
+
+(* READ-WRITE Open: TOTALITY (Store/OpenTotalProofs.v).  The three gaps "that it does return" of
+   C04_open_rw_refines_recover_partial, closed by one invariant carried through recoverJournal (every flush, every
+   commit with its newManifest / flushManifest branch incl. the MaxManifestFileSize rotation, every journal removal,
+   newMem, the last commit) down to checkAndCleanFiles.  The side conditions are stated ON THE IMAGE (image_tabs_ok):
+     - the storage lists a file name once;
+     - for every admissible manifest prefix: the journal number and the next file number it leaves are not negative
+       (they are Go int64 read back from varints), and every live table has a non-negative number and size and a file
+       in the image (tables are synced before the edit that names them: the assumption of C04_crash_safe, here needed
+       as existence only — the CONTENT of those files plays no role in totality).
+   From these: sessionRecord.encode never meets a negative number (what the recovery adds are counter values above
+   the recorded ones and lengths), versionStaging / setCompPtr never index a negative level (the recovery adds at
+   level 0 only; the snapshot record is filled with the version's own level positions), the table writer accepts
+   every buffer (C04_open_flush_total), memdb.Reset / New succeed, and the janitor finds every table the final
+   version names (nothing in Open removes a table file before the janitor).  No error result of the model —
+   OEFlush, OEEncode, OEMissing, OEPanic, OEFuel, the journal / manifest read errors — is reachable. *)
+From GL Require Import Store.OpenTotalProofs.
+Theorem C04_open_rw_total :
+  forall jcrc jp, jparams_ok jp -> forall rp, rparams_ok rp -> forall kp, kparams_ok kp ->
+  (keyTypeSeek kp <= keyTypeVal kp)%N -> forall mp, MemDB.mparams_ok mp ->
+  forall tp tcrc compress snappy fgen blockSize ri c, comparer_ok c ->
+  forall o hts img m mrecs ks jfz jl,
+  oo_strict_man o = false -> oo_strict_j o = false -> oo_ro o = false -> oo_err_exist o = false ->
+  heights_okl mp hts ->
+  image_ok jcrc jp rp kp o img m mrecs ks (olist jfz ++ [jl]) -> manifest_ok rp o mrecs ks -> jnums_ok jfz jl ->
+  image_tabs_ok rp o img mrecs ks ->
+  exists r, open_bytes jcrc jp rp kp 12 mp tp tcrc compress snappy fgen blockSize ri c o hts img = OOk r.
+Proof. exact open_rw_total_pinv. Qed.
+Print Assumptions C04_open_rw_total.
+
+(* ... composed with the partial-correctness half: TOTAL correctness of what read-write Open keeps.  On every byte
+   image of a pinv state, Open returns r, and r's kept batches / db.seq are the record-level recover of the
+   record-level image the bytes denote (acked ⊆ kept ⊆ issued, in order), the buffer is empty.
+   Still named _partial, because the full statement also asks for (and this does NOT prove):
+     (a) wf_bstate (os_bs r) and the CONTENTS of the level-0 tables the recovery flushes — table_check of each
+         flushed file = the stamped records of the batches replayed since the previous flush.  The pieces exist
+         (C01_writer_output_ok, C01_flush_step_bytes, C01_memdb_iterator_yields_pairs) but are stated for
+         Lsm/WritePath.v's table_bytes / b_flush on a bstate with a frozen buffer, under write_sizes_ok and
+         table_filter_ok; recoverJournal flushes db-less (session.flushMemdb straight from the replay buffer, the
+         table entering a pending record, not the version, until the journal's commit) through Codec/Table.v twrite,
+         so a bridge lemma twrite = table_bytes and a "pending adds" view of the version are needed;
+     (b) hence C04_open_rw_end_to_end (db_get_bytes at db.seq = plain map of L) and
+     (c) C04_open_rw_idempotent in general (needs (a) plus: the manifest the recovery writes, read back by
+         session_recover, yields the same levels — encode/decode round trip C04_record_roundtrip applied to
+         new_manifest's snapshot record — and the new journal is empty, so nothing is replayed).
+   Both remain evaluated on C04_open_rw_nonvacuous and compared byte for byte with the real Open by KOpenBytes. *)
+Theorem C04_open_rw_refines_recover_total_partial :
+  forall jcrc jp, jparams_ok jp -> forall rp, rparams_ok rp -> forall kp, kparams_ok kp ->
+  (keyTypeSeek kp <= keyTypeVal kp)%N -> forall mp, MemDB.mparams_ok mp ->
+  forall tp tcrc compress snappy fgen blockSize ri c, comparer_ok c ->
+  forall o hts img m mrecs ks jfz jl newb f s,
+  oo_strict_man o = false -> oo_strict_j o = false -> oo_ro o = false -> oo_err_exist o = false ->
+  heights_okl mp hts ->
+  image_ok jcrc jp rp kp o img m mrecs ks (olist jfz ++ [jl]) -> manifest_ok rp o mrecs ks -> no_prev rp mrecs ->
+  jnums_ok jfz jl -> order_embedding f -> f 0 = 0 -> pinv s -> denotes rp newb f s mrecs ks jfz jl ->
+  image_tabs_ok rp o img mrecs ks ->
+  exists r rimg k j nf q live cps d,
+    open_bytes jcrc jp rp kp 12 mp tp tcrc compress snappy fgen blockSize ri c o hts img = OOk r /\
+    is_image s (image_map f rimg) /\ (ks <= k)%nat /\
+    replay_result rp (oo_cmp_name o) (firstn k (map fst mrecs)) = SpecOk j 0%Z nf q live cps /\
+    recover_full rimg = (os_seq r, flat_map newb (flat_map SessionRecord.sr_adds (firstn k (map fst mrecs))) ++ map pair_batch (os_kept r)) /\
+    (forall b, In b (p_acked s) -> In b (recover rimg)) /\
+    (forall b, In b (recover rimg) -> In b (p_issued s)) /\
+    sorted_b (recover rimg) /\
+    bs_mem (os_bs r) = Some d /\ mem_entries mp (Some d) = [] /\ bs_frozen (os_bs r) = None.
+Proof. exact open_rw_refines_recover_total. Qed.
+Print Assumptions C04_open_rw_refines_recover_total_partial.
+
+(* Non-vacuity: the example image of C04_open_rw_nonvacuous satisfies every hypothesis of C04_open_rw_total (image_ok
+   there; manifest_ok and image_tabs_ok here), so the theorem applies to it — and the evaluation there shows the DB
+   it returns. *)
+Example C04_open_rw_total_nonvacuous :
+  image_tabs_ok rp (ox_opts false) ox_img ox_mrecs 1 /\ manifest_ok rp (ox_opts false) ox_mrecs 1 /\
+  jnums_ok None ox_jl /\
+  exists r, ox_open (ox_opts false) [] ox_img = OOk r.
+Proof. exact ox_rw_total. Qed.
